@@ -161,12 +161,8 @@ def observe(ctx: fw.Ctx, hists, count_case: bool = True):
             if r.result != "ok":
                 if r.op[0] == "set" and ep.value_as_tree(r.op[2]) is None:
                     continue
-                try:
-                    from nix_manipulator.cli.manipulations import _parse_npath
-
-                    _parse_npath(rest)
-                except ValueError:
-                    continue
+                if not ep.path_wellformed(rest):
+                    continue  # malformed path (the property's own grammar)
                 if depth > n and not (n == 0 and depth == 1 and r.op[0] == "set"):
                     continue  # missing layer: documented
                 if r.op[0] == "rm" and depth <= n and (
